@@ -29,8 +29,39 @@ def planeIdx : Plane → Nat
 def gainOf (w : Array Rat) : Gain → Rat
   | .wr => w[0]! | .wg1 => w[1]! | .wg2 => w[2]! | .wb => w[3]!
 
+def gain3Of (w : Array Rat) : Gain3 → Rat
+  | .wr => w[0]! | .wg => w[1]! | .wb => w[2]!
+
+def chanIdx : Chan → Nat
+  | .red => 0 | .green => 1 | .blue => 2
+
+/-- pairs `(max, saturation)` from a flat array -/
+def pairsOf (v : Array Rat) : List (Rat × Rat) :=
+  (List.range (v.size / 2)).map fun k => (v[2 * k]!, v[2 * k + 1]!)
+
 def step (t : List String) : String :=
   match t with
+  | "deinterlace" :: cs :: ms :: ns :: rest =>
+      match parseCfa cs, ms.toNat?, ns.toNat?, parseRats rest with
+      | some cfa, some m, some n, some v =>
+          if v.size != m * n then "bad-op" else
+          let img := fn2 n v 0
+          fmtList (fun ch => fmtRats (tab2 (m / 2) (n / 2) (deinterlace siteSlices (decompSite cfa) deinterlaceGreen img ch)))
+            [Chan.red, Chan.green, Chan.blue]
+      | _, _, _, _ => "bad-op"
+  | "postscale" :: ms :: ns :: rest =>
+      -- postscale m n wr wg wb <red plane> <green plane> <blue plane>
+      match ms.toNat?, ns.toNat?, parseRats rest with
+      | some m, some n, some v =>
+          if v.size != 3 + 3 * m * n then "bad-op" else
+          let rgb : Chan → Nat → Nat → Rat := fun ch => fn2 n v (3 + chanIdx ch * m * n)
+          fmtList (fun ch => fmtRats (tab2 m n (postscale postscaleGain (gain3Of v) rgb ch))) [Chan.red, Chan.green, Chan.blue]
+      | _, _, _ => "bad-op"
+  | "saferatio" :: rest =>
+      -- saferatio max1 sat1 max2 sat2 ... : the descaling ratio of the safe white balance after all planes
+      match parseRats rest with
+      | some v => if v.size % 2 != 0 then "bad-op" else fmtRat (safeRatio safeStep (pairsOf v) 1)
+      | none => "bad-op"
   | "expose" :: bs :: ns :: rest =>
       -- expose bits n t dc bias fwc gain img[n] dcnu[n] prnu[n]
       match bs.toInt?, ns.toNat?, parseFloats rest with
